@@ -3152,8 +3152,9 @@ class Frame(ContainerOperand):
             columns: {level}
         '''
 
-        index = self._index.level_add(index) if index else self._index
-        columns = self._columns.level_add(columns) if columns else self._columns.copy()
+        # NOTE: a falsy label (0, '', False) is a valid level label; only None means no change
+        index = self._index.level_add(index) if index is not None else self._index
+        columns = self._columns.level_add(columns) if columns is not None else self._columns.copy()
 
 
         return self.__class__(
